@@ -514,7 +514,7 @@ func init() {
 	core.Register(&core.Check{
 		Spec: core.Spec{
 			Prop:        "C02",
-			Rule:        "At quiescent points (every 8-10 operations and at the end) of (a) single-node sequential histories whose ledger is a single chain (detected on the snapshot: any overdrawn wallet there is a violation) and (b) conflicting histories (same funds spent through different nodes before gossip crosses, partitions healed, forged branches, then merged) the union of confirmed vertices (live+checkpoint) of every node is summed with big integers: no wallet but the genesis issuer may have spent more than it received, totals must equal what the genesis wallet issued and never exceed the supply; with a single tip the node's own CalculateBalance answers must equal the reference per wallet and add up. Overdrawn wallets are classified by the C01 per-vertex verdicts: own-history / single-chain (violations) vs cross-branch (known finding). Non-trivial = every quiescent evaluation; distinct by (chain?, confirmed-count bucket, tips bucket, checkpoint present, overdrawn count). Batch 0 first replays the fixed 2-node witness of the known finding. Fixed witness in every run: a wallet owning (2^64-1).999... spends 2^63.6, then (2^63-1).5 (whole parts add up to exactly 2^64-1 with a fractional carry, the running total sits on the wrap-around boundary), then (2^63-1).4; what exceeds the funds must not be confirmed. One batch runs the truncation-race scenario (overdrawing tentative tip, truncation racing with 24 proposals) under the conservation oracle. Overspend probes: at the end of every long scenario (single tip) each wallet proposes one smallest unit more than it owns over all vertices of the ledger, each counted once, followed by proposals that make the node judge that tip; every second wallet then spends exactly what it owns. One batch runs the probes on wallets that own amounts on both sides of the currency seam. After every multi-node scenario a fresh node syncs from node 0 and is probed on the tips it loaded and again after merging them; one batch probes a plain 1040-vertex chain right after its truncation. One transaction handed to two nodes at once (the gossiped vertex verifies slowly while the node seals its own copy): confirmed once. A trusted sealer's vertices without spice on overdrawing tips of a stranger (gossip, orphan buffer, one of two parents).",
+			Rule:        "At quiescent points (every 8-10 operations and at the end) of (a) single-node sequential histories whose ledger is a single chain (detected on the snapshot: any overdrawn wallet there is a violation) and (b) conflicting histories (same funds spent through different nodes before gossip crosses, partitions healed, forged branches, then merged) the union of confirmed vertices (live+checkpoint) of every node is summed with big integers: no wallet but the genesis issuer may have spent more than it received, totals must equal what the genesis wallet issued and never exceed the supply; with a single tip the node's own CalculateBalance answers must equal the reference per wallet and add up. Overdrawn wallets are classified by the C01 per-vertex verdicts: own-history / single-chain (violations) vs cross-branch (known finding). Non-trivial = every quiescent evaluation; distinct by (chain?, confirmed-count bucket, tips bucket, checkpoint present, overdrawn count). Batch 0 first replays the fixed 2-node witness of the known finding. Fixed witness in every run: a wallet owning (2^64-1).999... spends 2^63.6, then (2^63-1).5 (whole parts add up to exactly 2^64-1 with a fractional carry, the running total sits on the wrap-around boundary), then (2^63-1).4; what exceeds the funds must not be confirmed. One batch runs the truncation-race scenario (overdrawing tentative tip, truncation racing with 24 proposals) under the conservation oracle. Overspend probes: at the end of every long scenario (single tip) each wallet proposes one smallest unit more than it owns over all vertices of the ledger, each counted once, followed by proposals that make the node judge that tip; every second wallet then spends exactly what it owns. One batch runs the probes on wallets that own amounts on both sides of the currency seam. After every multi-node scenario a fresh node syncs from node 0 and is probed on the tips it loaded and again after merging them; one batch probes a plain 1040-vertex chain right after its truncation. One transaction handed to two nodes at once (the gossiped vertex verifies slowly while the node seals its own copy): confirmed once. A trusted sealer's vertices without spice on overdrawing tips of a stranger (gossip, orphan buffer, one of two parents). An overdrawing tentative tip whose parent a truncation cuts away (a second root), then the node's own vertices.",
 			Assumptions: []string{ledgerAssume, "scenarios of this check use no trusted sealers (the statement excludes vertices sealed under the exemption)"},
 			MinEvals:    100, MinNontriv: 10,
 		},
